@@ -24,6 +24,18 @@ checks = {
  "C20": ("constraint-specification oracle over exhaustive field lists (length <=3/4) for ColumnNames", "3.C20",
          "All field lists up to length 3 (4 thorough) over 12 atoms x 5 aliases, with/without INTO, OmitTime and time alias variants, random longer lists.", "default-name rules as stated in the evidence assumptions"),
 }
+checks.update({
+ "C13": ("panic observer (recover at the call boundary + process exit status) around 25 public operations, each on a fresh re-parse, over grammar-derived and 'odd but accepted' statements", "3.C13",
+         "Every accepted statement of the workload goes through every listed operation; a recovered panic in any of them is a violation. Held on the statements listed in the evidence only.", "operations listed in the evidence assumptions; errors are acceptable outcomes"),
+ "C14": ("structural snapshot + reflective aliasing monitor + step-by-step history monitor over in-place operations and reflective pokes", "3.C14",
+         "Clone/CloneExpr/Measurement.Clone results are compared structurally and walked for shared mutable nodes; 1-6 in-place operations on one side with the other side's dump compared after every step; derived operations checked for receiver change.", "*regexp.Regexp and *time.Location may be shared; unexported memo ignored"),
+ "C15": ("marker-search oracle over String() and Sanitize() with exact source spans of the password literal from the renderer", "3.C15",
+         "Password statements with marker-built passwords, hostile user names and layouts (incl. comments and multi-statement texts); marker leak search and exact preservation of text outside the literal span; Sanitize(t)==t for other kinds.", "only parser-accepted texts are judged"),
+ "C16": ("metamorphic monitor: baseline AST vs AST after every whitespace substitution / comment insertion at every gap; statement joins vs stand-alone parses", "3.C16",
+         "Every whitespace gap of the chosen statements x 6 whitespace substitutions x 6 comment forms is enumerated (not sampled); 2-5 statement joins with empty statements, trailing separators and missing separators.", "gaps come from the renderer's token boundaries"),
+ "C19": ("generator-knowledge oracle (databases of all measurements at any depth, INTO database) over RequiredPrivileges of all statement kinds", "3.C19",
+         "All clause subsets of all 44 kinds (non-empty list, no error, admin flag for administrative kinds); SELECT / EXPLAIN with subqueries to depth 5 and every INTO form (read on every source database, write on the target).", "distinct database names per slot"),
+})
 pending = {}
 order = ["C%02d"%i for i in range(1,21)]
 extra = json.load(open('/verif/tools/manifest_extra.json')) if os.path.exists('/verif/tools/manifest_extra.json') else {}
